@@ -41,6 +41,7 @@ import (
 // C16: concurrent checks and background updates are free of data races (race-oracle back-end of schedx).
 
 type c16Opts struct {
+	TwoProviders bool // a second chain (x-tenant: b) with its own discovered provider
 	Discovery  bool
 	SecretRef  bool
 	CAFile     bool
@@ -119,6 +120,19 @@ func newC16World(o c16Opts) *c16World {
 	}
 	w.oc = oc
 	w.cfg = &configv1.Config{Chains: []*configv1.FilterChain{{Name: "c", Filters: []*configv1.Filter{{Type: &configv1.Filter_Oidc{Oidc: oc}}}}}}
+	hosts := map[string]world.Responder{}
+	if o.TwoProviders {
+		host2 := "b-" + w.host
+		oc2 := &oidcv1.OIDCConfig{
+			CallbackUri: "https://app.test/b/callback", ClientId: "client-b", Scopes: []string{"openid"}, CookieNamePrefix: "b",
+			IdToken:            &oidcv1.TokenConfig{Header: "authorization", Preamble: "Bearer"},
+			ConfigurationUri:   "http://" + host2 + "/.well-known/openid-configuration",
+			ClientSecretConfig: &oidcv1.OIDCConfig_ClientSecret{ClientSecret: "secret-b"},
+		}
+		w.cfg.Chains = append([]*configv1.FilterChain{{Name: "b", Match: &configv1.Match{Header: "x-tenant", Criteria: &configv1.Match_Equality{Equality: "b"}},
+			Filters: []*configv1.Filter{{Type: &configv1.Filter_Oidc{Oidc: oc2}}}}}, w.cfg.Chains...)
+		hosts[host2] = world.CannedIdP("http://"+host2, w.answers)
+	}
 	ctx, cancel := context.WithCancel(context.Background())
 	w.cancel = cancel
 	pool := internal.NewTLSConfigPool(ctx)
@@ -140,7 +154,9 @@ func newC16World(o c16Opts) *c16World {
 		// first reconcile at start-up, as the controller would deliver it
 		_, _ = ctl.Reconcile(context.Background(), ctrl.Request{NamespacedName: types.NamespacedName{Namespace: "default", Name: "s1"}})
 	}
-	world.InstallCannedNet(map[string]world.Responder{w.host: world.CannedIdP(base, w.answers), "startup.idp.test": world.CannedIdP("http://startup.idp.test", nil)}, tlsHosts)
+	hosts[w.host] = world.CannedIdP(base, w.answers)
+	hosts["startup.idp.test"] = world.CannedIdP("http://startup.idp.test", nil)
+	world.InstallCannedNet(hosts, tlsHosts)
 	// the service is fully started before the first check: one key lookup through the provider's 'started'
 	// channel orders ServeContext's start-up reads of the configuration before everything the threads do
 	_, _ = jwks.Get(context.Background(), &oidcv1.OIDCConfig{JwksConfig: &oidcv1.OIDCConfig_JwksFetcher{
@@ -177,7 +193,7 @@ func (w *c16World) prepare(kind string, k int) *envoy.CheckRequest {
 	path := "/app"
 	cookie := "__Host-authservice-session-id-cookie=" + sid
 	switch kind {
-	case "nocookie":
+	case "nocookie", "nocookie-b":
 		cookie = ""
 	case "fresh":
 		_ = w.store().SetTokenResponse(ctx, sid, &oidc.TokenResponse{IDToken: w.idToken("", time.Now().Add(time.Hour)), AccessToken: "at", RefreshToken: "rt-" + sid,
@@ -197,6 +213,9 @@ func (w *c16World) prepare(kind string, k int) *envoy.CheckRequest {
 		path = "/logout"
 	}
 	h := map[string]string{":authority": "app.test", ":path": path}
+	if kind == "nocookie-b" {
+		h["x-tenant"] = "b"
+	}
 	if cookie != "" {
 		h["cookie"] = cookie
 	}
@@ -432,6 +451,7 @@ func c16Scenarios(tier string) []schedx.Scenario {
 			c16Scenario("S1 static: refresh||logout", static, []string{"refresh", "logout"}, b),
 			c16Scenario("S2 discovery first use: nocookie||nocookie", disc, []string{"nocookie", "nocookie"}, b),
 			c16Scenario("S2 discovery: callback||fresh", disc, []string{"callback", "fresh"}, b),
+			c16Scenario("S2 discovery, two providers first use: nocookie(a)||nocookie(b)", c16Opts{Discovery: true, TwoProviders: true}, []string{"nocookie", "nocookie-b"}, b),
 			c16Scenario("S3 secret rotation: callback||reconcile", c16Opts{SecretRef: true}, []string{"callback", "reconcile"}, b),
 			c16Scenario("S3 secret rotation: refresh||reconcile", c16Opts{SecretRef: true}, []string{"refresh", "reconcile"}, b),
 			c16Scenario("S4 CA file: callback||rotate", c16Opts{CAFile: true}, []string{"callback", "rotate"}, b),
@@ -489,7 +509,7 @@ func c16Run(run *ev.Run) {
 		out := filepath.Join(scratch, fmt.Sprintf("c16-child-%d.json", i))
 		cmd := exec.Command(exe, "C16", "--tier", run.Tier, "--verif", filepath.Join(scratch, fmt.Sprintf("c16-child-%d", i)))
 		cmd.Env = append(os.Environ(), "VERIF_C16_CHILD="+scs[i].Name, "VERIF_C16_OUT="+out,
-			fmt.Sprintf("GORACE=halt_on_error=0 history_size=5 log_path=%s/race-child-%d", scratch, i),
+			fmt.Sprintf("GORACE=halt_on_error=0 exitcode=0 history_size=5 log_path=%s/race-child-%d", scratch, i),
 			fmt.Sprintf("VERIF_BUDGET_S=%d", min(int(time.Until(run.Deadline).Seconds())-20, 420)))
 		b, err := cmd.CombinedOutput()
 		res := &c16ChildResult{Scenario: scs[i].Name}
